@@ -614,6 +614,7 @@ def eval_assembly(ctx, exe, mexe, cases, stats):
         h = [[Fraction(round(Fraction(math.exp(-(c["T"][a][b] * c["T"][a][b]) / c["width"])) * (1 << 60)), 1 << 60)
               for b in range(N)] for a in range(N)]
         mlines.append("LAPM %d %s %s" % (N, nbr_text(c["nb"]), qtable(h)))
+        mlines.append("DMK1 %d %s" % (N, qtable(h)))
         # ---- KLLE: local weights by exact rational solves
         wl = []
         okw = True
@@ -633,14 +634,38 @@ def eval_assembly(ctx, exe, mexe, cases, stats):
             wl.append([Fraction(round(v / sw * (1 << 32)), 1 << 32) for v in w])
         if okw:
             mlines.append("KLLEM %d %d %s %s %s" % (N, k, nbr_text(c["nb"]), qtable(wl), qtok(0)))
-        mmap.append((ci, okw, L, Dg, W))
+        mmap.append((ci, okw, L, Dg, W, h, Dm_))
     mout = run_model(ctx, mexe, mlines)
+    # second round for the diffusion matrix: the sqrt oracle values come from the model's own K1
+    dm_lines, dm_map = [], []
     pos = 0
-    for ci, okw, L, Dg, W in mmap:
+    for ci, okw, L, Dg, W, h, Dm_ in mmap:
+        K1 = parse_model_table(mout[pos + 1])
+        pos += 3 if okw else 2
+        if K1 is None:
+            raise vlib.BuildError("model driver returned a malformed diffusion table")
+        N = cases[ci]["N"]
+        sv = [Fraction(round(Fraction(math.sqrt(float(sum(K1[r][t] for r in range(N))))) * (1 << 60)), 1 << 60)
+              for t in range(N)]
+        dm_lines.append("DMM %d %s %s" % (N, qtable(h), qtable([sv])))
+        dm_map.append((ci, Dm_))
+    for (ci, Dm_), o in zip(dm_map, run_model(ctx, mexe, dm_lines)):
+        Mm = parse_model_table(o)
+        if Mm is None:
+            raise vlib.BuildError("model driver returned a malformed diffusion matrix")
+        evals += 1
+        sc = max(1e-300, max(abs(v) for r in Dm_ for v in r))
+        e = max_abs_diff([[float(v) for v in r] for r in Mm], Dm_) / sc
+        stats["dm_model_max_err"] = max(stats.get("dm_model_max_err", 0.0), e)
+        if e > 1e-10:
+            ctx.mismatch(case_to_json(cases[ci]), "compute_diffusion_matrix differs from the extracted model fed with the "
+                                                 "same heat values and square roots (relative difference %.3g)" % e)
+    pos = 0
+    for ci, okw, L, Dg, W, h, Dm_ in mmap:
         c = cases[ci]
         jc = case_to_json(c)
         o = mout[pos]
-        pos += 1
+        pos += 2
         evals += 1
         if o == ["OOB"]:
             ctx.mismatch(jc, "the Laplacian model reports an out-of-range neighbour access on uniform lists")
@@ -1355,14 +1380,17 @@ def run(ctx):
              "whole case) whose transformation is not the identity. Exact stream: n in {2,4,8,16}, D <= 4, dyadic "
              "data (generic, duplicates, collinear, constant column, lattice), transformations perm / exact "
              "orthogonal dyadic maps / translations up to 2000 / scales 2^k, 3, 5/4, negative. Metamorphic: 12 "
-             "deterministic methods x {perm, rot, trans, scale where the statement claims it}, N 14-30, blob / "
-             "roll / chain+cluster data, brute / vptree / covertree. History: 2-6 calls, deterministic call "
+             "deterministic methods x {perm, rot, trans, rigid motion + perm, scale where the statement claims it}, "
+             "N 14-30, blob / roll / chain+cluster data, brute / vptree / covertree. Assembly: N 5-12, k 2-5, exact "
+             "k-NN or arbitrary lists. Neighbour stream: N 8-40, D 1-5, k 2-8, plain / kernel distance, with and "
+             "without connectivity doubling. History: 2-6 calls, deterministic call "
              "under test after deterministic, randomized and failing calls.",
         samples=samples,
         histogram={"cases": hist, "stats": stats, "search_phase": searched,
                    "statics_inventory_entries": len(tres.get("entries", []))},
         trusted_base=TRUSTED, assumptions=ASSUMPTIONS,
-        extra={"translator": "translate/t_static.py", "inventory_unchanged": bool(tres.get("text")) and inv_ok})
+        extra={"translator": "translate/t_static.py", "inventory_unchanged": bool(tres.get("text")) and inv_ok,
+               "stateful_inventory": [list(e) for e in tres.get("entries", []) if e[1] in STATE_KINDS]})
 
 
 def replay(ctx, case):
